@@ -39,7 +39,7 @@ var (
 	IDs         = []string{"a", "b", "c", "d"}
 	AbsentID    = "zz"
 	Attrs       = []string{"a", "b", "name", "na me"}
-	asciiStrs   = []string{"", "a", "alice", "na me", "a*b", "x\\y", "q\"uote", "tab\there", "new\nline"}
+	asciiStrs   = []string{"", "a", "alice", "na me", "a*b", "x\\y", "q\"uote", "tab\there", "new\nline", "1", "true", "User::\"a\""}
 	uniStrs     = []string{"é", "日本", "🙂", "a b", " ", "ź"}
 	longs       = []int64{0, 1, 2, -1, 3, 4, 100, 9223372036854775807, -9223372036854775808}
 	ips         = []string{"127.0.0.1", "10.0.0.0/8", "::1", "192.168.1.77", "ff00::/8", "10.1.2.3/32"}
